@@ -904,7 +904,7 @@ struct Engine {
     uintmax_t src = rng.below(static_cast<uint32_t>(sz));
     uintmax_t pos = pick_pos(a);
     Val x = mo[src];
-    int form = rng.below(9);
+    int form = rng.below(FieldAlias<E>::kAvailable ? 11 : 9);
     std::string rel = src < pos ? "src<pos" : "src>=pos";
     const std::string sta = st(a);
     long ret_idx = -2, exp_idx = -2;
@@ -980,6 +980,21 @@ struct Engine {
         mo.insert(mo.end(), cnt, x);
         break;
       }
+      case 9:
+        if (!room) return false;
+        set_op("alias:emplace(pos,v[i].key,v[i].pay)", sta, rel + "," + cntcls(a, 1), fmt("P%d pos=%ju src=%ju", ai, pos, src));
+        oi.point = std::min(pos, src);
+        window([&] { ret_idx = FieldAlias<E>::emplace(v, v.begin() + pos, src); });
+        mo.insert(mo.begin() + pos, x);
+        exp_idx = pos;
+        break;
+      case 10:
+        if (!room) return false;
+        set_op("alias:emplace_back(v[i].key,v[i].pay)", sta, cntcls(a, 1), fmt("P%d src=%ju", ai, src));
+        oi.point = sz;
+        window([&] { FieldAlias<E>::emplace_back(v, src); });
+        mo.push_back(x);
+        break;
     }
     if (!threw && ret_idx != exp_idx) violation("C01,C10", "model.returned_position", fmt("returned iterator at index %ld, expected %ld", ret_idx, exp_idx));
     return true;
